@@ -85,7 +85,7 @@ func (dist *GevDistribution) ScalarType() ScalarType {
 
 func (dist *GevDistribution) LogPdf(r Scalar, x ConstScalar) error {
 
-  if dist.Xi.GetFloat64()*(x.GetFloat64() - dist.Mu.GetFloat64())/dist.Sigma.GetFloat64() <= -1 {
+  if math.IsInf(x.GetFloat64(), 0) || dist.Xi.GetFloat64()*(x.GetFloat64() - dist.Mu.GetFloat64())/dist.Sigma.GetFloat64() <= -1 {
     r.SetFloat64(math.Inf(-1))
     return nil
   }
